@@ -13,10 +13,12 @@
 EXTENDS Integers, Sequences, FiniteSets, TLC
 
 Sets    == {"S1", "S2"}
-Owners  == {"none", "S1", "S1stale", "S2", "otherKind", "gone"}     \* gone: a StatefulSet name that is not in the cache
+Owners  == {"none", "S1", "S1alpha", "S1stale", "S2", "otherKind", "gone"}     \* gone: a StatefulSet name that is not in the cache
+\* S1alpha: S1 itself (same UID), referenced through the other API version the CRD serves (apps.pingcap.com/v1alpha1)
+Ctl(o)      == IF o = "S1alpha" THEN "S1" ELSE o
 Labels  == {"L0", "L1", "L1b", "L2"}                                \* {} ; {app=a} ; {app=a, extra=y} ; {app=a, tier=x}
 Matching(l) == CASE l = "L0" -> {} [] l = "L1" -> {"S1"} [] l = "L1b" -> {"S1"} [] OTHER -> {"S1", "S2"}
-Resolve(o)  == IF o \in Sets THEN {o} ELSE {}       \* resolveControllerRef: right kind, found by name, same UID
+Resolve(o)  == IF Ctl(o) \in Sets THEN {Ctl(o)} ELSE {}       \* resolveControllerRef: right kind, found by name, same UID
 
 PodShapes == [owner : Owners, lab : Labels, term : BOOLEAN]
 Events == [kind : {"add"}, new : PodShapes]
@@ -45,15 +47,15 @@ Enq(ev) == CASE ev.kind = "add" -> EnqAdd(ev.new)
 \* sets that MUST be enqueued
 Required(ev) ==
   CASE ev.kind = "add" ->
-         IF ev.new.owner \in Sets THEN {ev.new.owner}                      \* controlled by a set: that set
+         IF Ctl(ev.new.owner) \in Sets THEN {Ctl(ev.new.owner)}           \* controlled by a set: that set
          ELSE IF ev.new.owner = "none" /\ ~ev.new.term THEN Matching(ev.new.lab)   \* an unowned pod: every matching set
          ELSE {}
     [] ev.kind = "update" ->
          IF ev.rvSame THEN {}                                              \* a resync replay of a known version: nothing new
-         ELSE (IF ev.new.owner \in Sets THEN {ev.new.owner} ELSE {})
-              \cup (IF ev.old.owner \in Sets /\ ev.old.owner # ev.new.owner THEN {ev.old.owner} ELSE {})   \* owner changed: old and new
+         ELSE (IF Ctl(ev.new.owner) \in Sets THEN {Ctl(ev.new.owner)} ELSE {})
+              \cup (IF Ctl(ev.old.owner) \in Sets /\ ev.old.owner # ev.new.owner THEN {Ctl(ev.old.owner)} ELSE {})   \* owner changed: old and new
               \cup (IF ev.new.owner = "none" /\ (ev.old.lab # ev.new.lab \/ ev.old.owner # "none") THEN Matching(ev.new.lab) ELSE {})
-    [] ev.kind \in {"delete", "tombstone"} -> IF ev.new.owner \in Sets THEN {ev.new.owner} ELSE {}
+    [] ev.kind \in {"delete", "tombstone"} -> IF Ctl(ev.new.owner) \in Sets THEN {Ctl(ev.new.owner)} ELSE {}
     [] OTHER -> {ev.set}
 \* sets that MAY be enqueued: only ones the pod is related to (controller of the old or new version, or selecting an orphan)
 Allowed(ev) ==
